@@ -127,6 +127,26 @@ func init() {
 		},
 		Undecided: []string{"YAML round trip on restart (library)", "the exact password rule cases (unchanged marker / absent) are not yet under contract"},
 	}
+	plans["C03"] = &Plan{
+		Items: append([]Item{{Plugin: "contain"}}, fnItems([]string{"guarded", "nopanic"},
+			"hotline.(*Server).rateLimiterFor",
+			"hotline.(*MemChatManager).New", "hotline.(*MemChatManager).Join", "hotline.(*MemChatManager).Leave", "hotline.(*MemChatManager).Members",
+			"hotline.(*MemChatManager).GetSubject", "hotline.(*MemChatManager).SetSubject",
+			"hotline.(*MemFileTransferMgr).Add", "hotline.(*MemFileTransferMgr).Get", "hotline.(*MemFileTransferMgr).Delete",
+			"hotline.(*ClientFileTransferMgr).Add", "hotline.(*ClientFileTransferMgr).Get", "hotline.(*ClientFileTransferMgr).Delete",
+			"hotline.(*Stats).Increment", "hotline.(*Stats).Decrement", "hotline.(*Stats).Set", "hotline.(*Stats).Get",
+			"hotline.(*MemClientMgr).Add", "hotline.(*MemClientMgr).Delete", "hotline.(*MemClientMgr).Get", "hotline.(*MemClientMgr).List",
+			"hotline.(*Field).Write", "hotline.FieldScanner", "hotline.transactionScanner")...),
+		Decided: []string{
+			"both connection functions begin with the deferred recover (dontPanic) and have a recover exit: every panic raised while a connection's input is processed is recovered in that connection's goroutine",
+			"the connection / transfer counters are incremented immediately before the deferred decrement of the same counter; a transfer looked up successfully is deleted by a deferred function; a registered client is deregistered by a deferred Disconnect",
+			"every Lock of a mutex (in code that runs under a recover) is followed by the deferred Unlock before anything that can panic: a recovered panic never leaves a manager locked",
+			"the shared maps (client registry, chats, transfers, per-client transfers, statistics, rate limiters) are only touched while their mutex is held",
+			"the outbox dispatcher never writes to a connection itself; each transaction is sent from its own goroutine",
+			"Field.Write / FieldScanner / transactionScanner never index out of range, for every input",
+		},
+		Undecided: []string{"wedge / timeliness (liveness), memory exhaustion, data races on plain fields", "panics inside callees are contained by the connection-level recover, they are not individually excluded"},
+	}
 	plans["C18"] = &Plan{
 		Items: append([]Item{
 			{Plugin: "sites", Func: "mobius.(*ThreadedNewsYAML).PostArticle", Kinds: []string{"site", "post", "guarded"}},
